@@ -135,6 +135,10 @@ CHECKS.update({
             "Real threads under the seeded scheduler: 1-3 waiter threads call node::WaitAndCreateNewBlock (timeouts 0..max, fee thresholds 0/1 sat/k/MAX_MONEY, stale or fresh templates) against a real node with KernelNotifications while the driver thread mines blocks on the tip (timestamps now / now-20 min +-3 s / now+30 s), makes natural reorgs and stale siblings, adds and replaces transactions so that mempool fees land exactly at / one below / one above previous fees + threshold, and calls InterruptWait; every clock is the simulator's (sleeps of 0.999999/1/1.000001 s, clock jumps of 1 ms-21 min, spurious condition-variable wake-ups as fault knobs); policies cooperative / preemptive / PCT re-drawn at the start of the concurrent phase. Post-hoc over the recorded event order: a returned template's parent was the tip at some instant inside the call; a same-tip template needs the fee rise or a tip older than 20 min; null needs the timeout passed or an interrupt; no null when the tip changed or the fee condition held before the deadline; every call ends by its deadline and within one tick of a tip change, interrupt or fee rise.",
             "Promptness is decided to one 1 s tick (a lost notify is masked by the poll); the 20-minute rule only on regtest; shutdown interrupt and the BlockTemplateImpl wrapper are bypassed.",
             "deterministic simulation: real threads scheduled by seed at intercepted pthread/futex/clock calls with simulated time and clock faults; oracle = post-hoc check of the recorded call/notification history", "DESIGN.md §5 C65"),
+    "C44": ("walletsim/balances", "exploration",
+            "A real descriptor wallet (production SQLite) attached through interfaces::Chain to a real regtest node since genesis; seeded histories of 18-90 operations: external receives and their double-spends (RBF or held for a block), wallet sends (self-recipients, subtract-fee, chaining on own unconfirmed change or on unconfirmed receives, all change types), wallet-signed double-spends held for a block / replaced / committed, joint transactions, blocks of seeded mempool subsets and held conflicts, reorgs of depth 1-6 re-including seeded subsets, invalidateblock/reconsiderblock, abandontransaction, clock jumps that make mempool expiry run, trimming, unload + offline history + load with rescan, node restart, rescanblockchain, resubmission; coinbases straddle the 100/101 confirmation boundary. After every operation (signals drained): trusted / untrusted-pending / immature balances equal a pure recomputation from the model's UTXO(tip) + the real mempool for the wallet's scripts; AvailableCoins (safe and unsafe) equals the model's coin list (outpoint, value, script, depth, safe flag); coins spent by chain-conflicted or abandoned transactions are restored.",
+            "Validation-interface callbacks run on a deferred runner that drains when cs_main is released (as the scheduler thread would); AvailableCoins additionally depends on which unconfirmed transactions the wallet knows (recorded notification history). One known finding (transaction committed on an already chain-conflicted parent keeps its other inputs reserved). No storage faults here (C43).",
+            "deterministic simulation: real wallet + real node under seeded chain/mempool histories; oracle = recomputation from the reference chain model and the mempool", "DESIGN.md §5 C44"),
     "C23": ("nodesim/block-template", "exploration",
             "MempoolSim histories plus own ops (nLockTime at height/MTP -1/0, sigop-heavy outputs, prioritisation, reorgs to MTP+1-time branches lowering the MTP) with the clock stepping backwards before template creation; per-template option space: max weight aimed at the weight of the first k baseline transactions +-1..3, reserved weight, block_min_fee_rate, coinbase sigop reservation aimed at 80000 - sigops(first k) +-1..5, use_mempool, 7 coinbase scripts. Every template: on tip, one coinbase, no duplicates, parents first, inputs in model UTXO or earlier in the template, fees == inputs - outputs, own weight sum + reserved <= max, own sigop count + reservation <= 80000, every tx final for tip+1 at MTP by the model, coinbase == subsidy + fees, TestBlockValidity on the raw and the solved block, model verdict VALID, and ProcessNewBlock makes it the tip of a cold twin node (or of the node itself).",
             "Landing exactly on a limit is within the limit; block_min_fee_rate and per-tx sigop entries are not in the statement and not decided.",
